@@ -626,6 +626,9 @@ impl<'a> Parser<'a> {
     }
 
     fn parse_unary(&mut self, op: &'a str) -> Result<ExprAST<'a>> {
+        if !keyword::is_prefix_op(op) {
+            return Err(Error::PrefixOpNotRegistered(op.to_string()));
+        }
         self.next()?;
         Ok(ExprAST::Unary(op, Box::new(self.parse_primary()?)))
     }
